@@ -37,6 +37,8 @@ def check(v, hists):
         seen_ids = {}
         seen_nonce = {}
         for o in chainlog.walk(h):
+            if o.where == "packet":
+                continue
             intent = (o.tx or {}).get("intent", "?")
             iclass = intent.split(":")[1] if intent.startswith("trial:") and ":" in intent[6:] else intent.split(":")[0]
             if intent.startswith("trial:fail_at"):
